@@ -30,6 +30,9 @@ func isByteSlice(t types.Type) bool {
 }
 
 func runC05(c *eng.Ctx, tier string) {
+	if tier == "thorough" {
+		defer thoroughC05(c)
+	}
 	p := c.P
 	k := loadKV(c)
 	if k == nil {
